@@ -5,6 +5,7 @@ from harness import o_hydroalg as H
 from py2lean.targets.t_hydro import COG
 
 M = 'EPV.Props.C20.Hydro'
+F = 'EPV.Props.C20.Finding'       # one module per defect: a repair breaks only its own module
 T = 'EPV.C20.'
 SOLVERS = ['Noh', 'Noh2', 'Noh2Cog'] + ['Cog%d' % n for n in COG]
 _o = []
@@ -18,7 +19,8 @@ for s in SOLVERS:
               'finding_cog4_gamma_not_enforced']
     else:
         th = ['init_%s_accepts_iff' % l, 'init_%s_rejects_with_ValueError' % l]
-    _o.append(obl('C20.%s.constructor' % l, M, [T + x for x in th], ['Init' + s], H.constructor_oracle[s],
+    _o.append(obl('C20.%s.constructor' % l, F + s if s in ('Cog19', 'Cog4') else M, [T + x for x in th], ['Init' + s],
+                  H.constructor_oracle[s],
                   finding=s in ('Cog19', 'Cog4')))
 # the traced constructor models against the real constructors (boundary values of every traced constant)
 _o.append(obl('C20.hydro.init_models', tie=H.init_tie()))
@@ -34,10 +36,10 @@ for s in ['Cog7', 'Cog10', 'Cog16', 'Cog20']:
     # no theorem (partial): isfinite sweep on the real code only
     _o.append(obl('C20.%s.finite_sweep' % s.lower(), oracle=H.finite_oracle[s]))
 _o += [
-    obl('C20.cog13.in_domain', M, [T + 'finding_cog13_not_well_defined'], ['Cog13'], H.cog13_complex, finding=True),
-    obl('C20.cog14.in_domain', M, [T + 'finding_cog14_base_negative', T + 'finding_cog14_not_well_defined'], ['Cog14'],
+    obl('C20.cog13.in_domain', F + 'Cog13', [T + 'cog13_ok_leaves', T + 'finding_cog13_not_well_defined'], ['Cog13'], H.cog13_complex, finding=True),
+    obl('C20.cog14.in_domain', F + 'Cog14', [T + 'cog14_ok_leaves', T + 'finding_cog14_base_negative', T + 'finding_cog14_not_well_defined'], ['Cog14'],
         H.cog14_complex, finding=True),
-    obl('C20.cog17.in_domain', M, [T + 'finding_cog17_not_well_defined'], ['Cog17'], H.cog17_complex, finding=True),
+    obl('C20.cog17.in_domain', F + 'Cog17', [T + 'cog17_ok_leaves', T + 'finding_cog17_not_well_defined'], ['Cog17'], H.cog17_complex, finding=True),
 ]
 PROP = dict(
     groups=['hydro', 'hydroinit'],
